@@ -63,6 +63,10 @@ func (vc *VC) hdrGet(st *State, m, key Term) Term {
 	p := vc.hdrOpen(st, m)
 	ck := vc.canonKey(key)
 	sl := Sel(p.val, ck, SSlice)
+	if !st.pure && len(vc.defScopes) == 0 {
+		// slices stored in maps refer to allocated arrays
+		st.Assume(vc.wfValue(sl, types.NewSlice(types.Typ[types.String]), st))
+	}
 	has := And(Not(Eq(m, IntLit(0))), Sel(p.dom, ck, SBool), Lt(IntLit(0), SLen(sl)))
 	_, hs, es := vc.typedHeap(st, types.Typ[types.String])
 	first := Sel(Sel(hs, SArr(sl), RowSort(es)), SOff(sl), es)
@@ -132,6 +136,9 @@ func init() {
 		return Val{}, st
 	}
 	extraModels = map[string]modelFn{
+		"net/textproto.CanonicalMIMEHeaderKey": func(fr *Frame, a []Val, st *State, pos token.Pos) (Val, *State) {
+			return TV(fr.vc.canonKey(a[0].T)), st
+		},
 		"(net/http.Header).Get": hget,
 		"(net/http.Header).Set": hset,
 		"(net/http.Header).Add": hadd,
